@@ -33,9 +33,11 @@ func vAdd(t time.Time, d time.Duration) time.Time {
 }
 
 var vTimerWaits int
+var vLastTimer time.Duration
 
 func vNewTimer(d time.Duration) *time.Timer {
 	vTimerWaits++
+	vLastTimer = d
 	ch := make(chan time.Time, 1)
 	ch <- time.Time{}
 	return &time.Timer{C: ch}
@@ -221,7 +223,11 @@ func verifC09_FilterPolicy() {
 	verifAssert(pol.TimeoutDuration == tvals[ti], "timeout-as-configured")
 	verifAssert(pol.LimitRefreshPeriod == pvals[pi], "refresh-period-as-configured")
 	verifAssert(pol.LimitForPeriod == wantLimit, "limit-as-configured")
-	// a burst of limit+1 requests at one instant
+	// a burst of limit+1 requests at one instant: at the start of a period, half a
+	// millisecond or one nanosecond before the next one
+	offs := []time.Duration{0, pvals[pi] - 500*time.Microsecond, pvals[pi] - 1}
+	off := offs[verifChoose("burstAtOffsetInPeriod", 3)]
+	vMono = 1000 + int64(off)
 	vTimerWaits = 0
 	get := func() *httpprot.Request {
 		return &httpprot.Request{Request: &http.Request{Method: "GET", URL: &url.URL{Path: "/x"}, Header: http.Header{}}}
@@ -239,7 +245,11 @@ func verifC09_FilterPolicy() {
 			verifCover("rejected-at-once")
 		} else {
 			verifAssert(res == "" && vTimerWaits == 1, "request-beyond-the-limit-waits-within-the-timeout")
+			verifAssert(vLastTimer == pvals[pi]-off, "released-at-the-start-of-the-next-period-not-before")
 			verifCover("waited")
+			if vLastTimer < time.Millisecond {
+				verifCover("waited-less-than-a-millisecond")
+			}
 		}
 	}
 	if ti == 1 {
